@@ -181,6 +181,18 @@ class Driver:
         self.on_death = on_death        # called once with a message when the driver process dies; answers are then "E:driver-died"
         self.dead = False
         self.proc = subprocess.Popen([str(exe)], stdin=subprocess.PIPE, stdout=subprocess.PIPE, text=True, bufsize=1 << 16)
+        # reader thread + queue: lets batch() wait for each answer with a deadline (a model that loops must not hang the check)
+        import queue
+        import threading
+        self._q = queue.Queue()
+
+        def _reader(proc=self.proc, q=self._q):
+            for line in proc.stdout:
+                q.put(line)
+            q.put(None)
+
+        threading.Thread(target=_reader, daemon=True).start()
+        self.answer_timeout = float(os.environ.get("VERIF_DRIVER_TIMEOUT", "240"))   # seconds for ONE answer (answers normally take milliseconds)
 
     def batch(self, lines):
         """Send all request lines (writer thread) and read exactly one answer per request."""
@@ -204,12 +216,22 @@ class Driver:
         th = threading.Thread(target=writer, daemon=True)
         th.start()
         out = []
+        import queue
         for _ in lines:
-            r = self.proc.stdout.readline()
+            try:
+                r = self._q.get(timeout=self.answer_timeout)
+            except queue.Empty:
+                r = None
+                self.proc.kill()
+                timed_out = True
+            else:
+                timed_out = False
             if not r:
-                # a model that crashes (e.g. on a regenerated part) is a broken correspondence, not an infrastructure problem
+                # a model that crashes or loops (e.g. on a regenerated part or on an input a change to /repo produced) is a broken
+                # correspondence, not an infrastructure problem and not a hang
                 self.dead = True
-                msg = f"model driver {self.exe.name} died (after {len(out)} answers of this batch)"
+                msg = (f"model driver {self.exe.name} did not answer within {self.answer_timeout:.0f} s and was killed (request: {lines[len(out)][:200]!r})"
+                       if timed_out else f"model driver {self.exe.name} died (after {len(out)} answers of this batch)")
                 if self.on_death is None:
                     raise Infra(msg)
                 self.on_death(msg)
